@@ -266,16 +266,20 @@ def calls_in(node, name=None):
 
 
 def walk_local(node):
-    """ast.walk that does not descend into nested function/class definitions."""
-    todo = [node]
-    first = True
-    while todo:
-        n = todo.pop()
-        if not first and isinstance(n, FUNC + (ast.ClassDef, ast.Lambda)):
+    """Pre-order walk in source order that does not descend into nested
+    function/class definitions or lambdas."""
+    yield node
+    stack = [iter(ast.iter_child_nodes(node))]
+    while stack:
+        try:
+            n = next(stack[-1])
+        except StopIteration:
+            stack.pop()
             continue
-        first = False
+        if isinstance(n, FUNC + (ast.ClassDef, ast.Lambda)):
+            continue
         yield n
-        todo.extend(ast.iter_child_nodes(n))
+        stack.append(iter(ast.iter_child_nodes(n)))
 
 
 def const_fold(e, consts=None, depth=0):
